@@ -67,6 +67,8 @@ type VC struct {
 	onWrite func(string)
 	calledContracts map[string]int
 	externals map[string]int
+	entryEnv *SpecEnv
+	entryHeap *Heap
 }
 
 func (vc *VC) warn(f string, a ...interface{}) {
